@@ -27,6 +27,7 @@ import uuid
 import warnings
 import weakref
 from contextlib import AbstractContextManager, contextmanager
+from copy import deepcopy
 from gc import collect
 from getpass import getuser
 from io import BytesIO
@@ -263,6 +264,9 @@ class Workspace(AbstractContextManager):
 
         if entity_kwargs is None:
             return None
+
+        if isinstance(entity_kwargs.get("metadata"), dict):
+            entity_kwargs["metadata"] = deepcopy(entity_kwargs["metadata"])
 
         entity_type_kwargs = get_attributes(
             entity.entity_type,
